@@ -572,8 +572,8 @@ class Executor:
 
         def havoc(s0, tag):
             s = s0.fork()
-            if writes_heap:
-                H2 = L.Heap(L.nv(), L.nv() if inv.writes_tags else s.heap.tv)
+            if writes_heap or inv.writes_tags:
+                H2 = L.Heap(L.nv() if writes_heap else s.heap.kv, L.nv() if inv.writes_tags else s.heap.tv)
                 s.clock = self.W.fresh('clock', L.I)
                 s.assume(s.clock >= s0.clock)
                 s.heap = H2
